@@ -369,6 +369,7 @@ type Config struct {
 	MaxEnt    int      `json:"maxent"`    // driver: soft bound on the number of alive entities
 	Observers int      `json:"observers"` // driver: max simultaneously registered observers (0 = none)
 	ResetP    int      `json:"resetp"`    // driver: per-mille probability of World.Reset / DumpLoad per step
+	QMis      bool     `json:"qmis"`      // run the query / mapper misuse battery after each history (C20)
 	Stats     bool     `json:"stats"`     // emit a stats event (with replayed twin) after each history
 	Queries   int      `json:"queries"`   // driver: max simultaneously open queries (0 = none)
 }
@@ -1732,5 +1733,6 @@ func (x *Exec) RunSequence(ops []GenOp, note string) {
 	if x.Cfg.Stats {
 		x.statsEvent()
 	}
+	x.qmisBattery()
 	x.misuseBattery(len(ops))
 }
